@@ -63,6 +63,21 @@ type c14Case struct {
 	Items     []c14Item            `json:"items"`
 	Workers   int                  `json:"workers"`
 	Rounds    int                  `json:"rounds"`
+	// api: a history over the selector's exported API on one selector object
+	Init map[string]*c14Cfg `json:"init"`
+	Aops []c14Aop           `json:"aops"`
+}
+
+// one call of the selector's API: add (AddGeneration, IGen may be -1) | update | remove | select
+type c14Aop struct {
+	K    string  `json:"k"`
+	IGen int     `json:"igen"`
+	Gen  uint    `json:"gen"`
+	Cfg  *c14Cfg `json:"cfg"`
+	Nil  bool    `json:"nil"` // add / update with a nil *SubnetConfig
+	Seed string  `json:"seed"`
+	LV   uint    `json:"lv"`
+	V6   bool    `json:"v6"`
 }
 type c14Res struct {
 	Out     string   `json:"out"`
@@ -77,6 +92,11 @@ type c14Res struct {
 	CfgChanged string   `json:"cfg_changed,omitempty"`
 	// list: SupportRandomPort of every network GetUnweightedSubnetList returns, in order ("T"/"F")
 	Flags string `json:"flags,omitempty"`
+	// api: index returned by AddGeneration; for a select the result on a selector that was created with nothing but
+	// the configuration last written for that generation (Fresh), and whether anything was written at all (Known)
+	Idx   uint    `json:"idx"`
+	Fresh *c14Res `json:"fresh,omitempty"`
+	Known bool    `json:"known"`
 	// conc
 	Serial []c14Res `json:"serial,omitempty"`
 	Diffs  int      `json:"diffs"`
@@ -299,6 +319,68 @@ func c14Multi(cs c14Case) c14Res {
 	return r
 }
 
+// a history over AddGeneration / UpdateGeneration / RemoveGeneration / Select on ONE selector object.  The driver
+// keeps a record of what was last written for every generation (by the index AddGeneration returned) -- book-keeping
+// for the containment facts and for the fresh-selector comparison, no assertion.
+func c14Api(cs c14Case) c14Res {
+	var r c14Res
+	r.Out = "api"
+	sel := &PhantomIPSelector{Networks: map[uint]*SubnetConfig{}}
+	view := map[uint]*c14Cfg{}
+	for g, c := range cs.Init {
+		var id uint
+		fmt.Sscanf(g, "%d", &id)
+		sel.Networks[id] = &SubnetConfig{WeightedSubnets: c14Groups(c)}
+		view[id] = c
+	}
+	mk := func(o c14Aop) (*SubnetConfig, *c14Cfg) {
+		if o.Nil || o.Cfg == nil {
+			return nil, nil
+		}
+		return &SubnetConfig{WeightedSubnets: c14Groups(o.Cfg)}, o.Cfg
+	}
+	for _, o := range cs.Aops {
+		var one c14Res
+		func() {
+			defer func() {
+				if e := recover(); e != nil {
+					one = c14Res{Out: "panic", Err: fmt.Sprint(e)}
+				}
+			}()
+			switch o.K {
+			case "add":
+				sc, c := mk(o)
+				one = c14Res{Out: "idx", Idx: sel.AddGeneration(o.IGen, sc)}
+				view[one.Idx] = c
+			case "update":
+				sc, c := mk(o)
+				sel.UpdateGeneration(o.Gen, sc)
+				view[o.Gen] = c
+				one = c14Res{Out: "done"}
+			case "remove":
+				sel.RemoveGeneration(o.Gen)
+				view[o.Gen] = nil
+				one = c14Res{Out: "done"}
+			default:
+				seed, _ := hex.DecodeString(o.Seed)
+				cfg := view[o.Gen]
+				p, err := sel.Select(seed, o.Gen, o.LV, o.V6)
+				one = c14Record(cfg, p, err)
+				_, one.Known = view[o.Gen]
+				fresh := &PhantomIPSelector{Networks: map[uint]*SubnetConfig{}}
+				if cfg != nil {
+					fresh.Networks[o.Gen] = &SubnetConfig{WeightedSubnets: c14Groups(cfg)}
+				}
+				fp, ferr := fresh.Select(seed, o.Gen, o.LV, o.V6)
+				fr := c14Record(cfg, fp, ferr)
+				one.Fresh = &fr
+			}
+		}()
+		r.First = append(r.First, one)
+	}
+	return r
+}
+
 func c14Same(a, b c14Res) bool {
 	return a.Out == b.Out && a.IP == b.IP && a.RP == b.RP
 }
@@ -380,6 +462,8 @@ func TestVerifC14Phantoms(t *testing.T) {
 			res[i] = c14Hist(c)
 		case "multi":
 			res[i] = c14Multi(c)
+		case "api":
+			res[i] = c14Api(c)
 		}
 	}
 	out, _ := json.Marshal(res)
